@@ -279,7 +279,10 @@ def sort_assignments(
                 "Try to save the ODE to an .ode file first and load it again"
             )
             raise exceptions.GotranxError(msg)
-        sorter.add(assignment.name, *assignment.value.dependencies)
+        # The dependencies are a frozenset of strings whose iteration order depends on
+        # the hash seed of the process; sort them so that the resulting order (and with
+        # it the slot layout of the generated code) is a function of the model only.
+        sorter.add(assignment.name, *sorted(assignment.value.dependencies))
 
     static_order = tuple(sorter.static_order())
 
